@@ -283,12 +283,17 @@ class World:
         params = []
         seen_default = False
         for name, default in fields:
-            if default is None and seen_default:
+            if default is None and seen_default and not (
+                    isinstance(opts.get('kw_only'), K) and
+                    opts['kw_only'].v):
                 cls.attrs['__unmodelled__'] = K('dataclass field order')
             seen_default = seen_default or default is not None
             params.append(name if default is None else '%s=%s' % (
                 name, ast.unparse(default)))
-        src = 'def __init__(self%s):\n' % ''.join(', ' + p for p in params)
+        kw_only = isinstance(opts.get('kw_only'), K) and opts['kw_only'].v
+        src = 'def __init__(self%s%s):\n' % (
+            ', *' if kw_only and params else '',
+            ''.join(', ' + p for p in params))
         src += ''.join('    self.%s = %s\n' % (n, n) for n, _d in fields) \
             or '    pass\n'
         if '__post_init__' in cls.attrs:
@@ -314,7 +319,8 @@ class World:
             f = FuncRef(node, module, closure=fr.env, name=node.name)
             f.cls = cls
             cls.attrs[node.name] = f
-        for o in ('order', 'slots', 'kw_only', 'unsafe_hash'):
+        # slots=True only forbids attributes other than the fields
+        for o in ('order', 'unsafe_hash'):
             if isinstance(opts.get(o), K) and opts[o].v:
                 cls.attrs['__unmodelled__'] = K('dataclass(%s=True)' % o)
         if isinstance(opts.get('frozen'), K) and opts['frozen'].v:
